@@ -6,6 +6,7 @@
 //   --schedules FILE                 replay the schedules (walker output) against the FIRST program
 //   --random N --seed S [--pct D] [--notimeout] [--spurious] [--maxsteps M]
 //   --free N --seed S                E5: free-running timed waits, one observation record per call
+//   --linkpool R [--links N]         E5: R rounds of N then() links; one record per round (small-buffer pool size)
 //
 // Program text: see spec/future/gen.py.  C++ only drives, records and projects; TLC judges.
 #include <dispenso/future.h>
@@ -799,8 +800,47 @@ static int runFree(const drv::Args& a) {
   return 0;
 }
 
+// ------------------------------------------------- E5: then-chain links and the small-buffer pools
+// Rounds of N x then() on a future that is not ready yet (every call allocates one chain link), then the future runs
+// (drains the chain, frees every link).  One record per round: bytes the 32-byte small-buffer pool has claimed.
+static int runLinkPool(const drv::Args& a) {
+  ctl::Trace tr(a.str("out", "pool.ndjson"));
+  long long rounds = a.num("linkpool", 5);
+  long long n = a.num("links", 20000);
+  for (long long r = 0; r < rounds; ++r) {
+    ManualQueue mq;
+    {
+      Future<int> f([]() { return 1; }, mq);
+      for (long long i = 0; i < n; ++i) {
+        auto g = f.then([](Future<int>&& x) { return x.get(); }, dispenso::kImmediateInvoker);
+      }
+      dispenso::OnceFunction of = std::move(mq.q.front());
+      mq.q.pop_front();
+      of();
+    }
+    Json j;
+    j.beginObj();
+    j.kv("e", std::string("Pool"));
+    j.kv("round", r);
+    j.kv("links", n);
+    j.kv("kb32", (long long)(dispenso::approxBytesAllocatedSmallBuffer<32>() / 1024));
+    j.kv("live", (long long)g_reg.live.size());
+    j.endObj();
+    tr.line(j.s);
+  }
+  tr.flush();
+  printf("DRIVER executions=%lld steps=%lld completed=%lld deadlocks=0 diverged=0 stuck=0\n", rounds, rounds * n, rounds);
+  fflush(stdout);
+  return 0;
+}
+
 int main(int argc, char** argv) {
   drv::Args a(argc, argv);
+  if (a.has("linkpool")) {
+    int rc = runLinkPool(a);
+    fflush(stdout);
+    _exit(rc);
+  }
   if (a.has("free")) {
     int rc = runFree(a);
     fflush(stdout);
